@@ -102,7 +102,29 @@ func f4Class(ws []wDirective, ts []*lib.Term) bool {
 	return errs == 1
 }
 
+// misusedOnRedactable: how many of the %w directives ws apply to a RedactableString / RedactableBytes operand
+// (possibly wrapped in Safe / Unsafe, or handed over as a reflect.Value)
+func misusedOnRedactable(ws []wDirective, ts []*lib.Term) int {
+	n := 0
+	for _, w := range ws {
+		if w.arg < 0 {
+			continue
+		}
+		t := ts[w.arg]
+		for t.K == "safe" || t.K == "unsafe" || t.K == "rvalue" || t.K == "rvaluero" {
+			t = t.Xs[0]
+		}
+		if t.K == "rstring" || t.K == "rbytes" {
+			n++
+		}
+	}
+	return n
+}
+
 func holdsError(t *lib.Term) *lib.Term {
+	if t.K == "rvalue" {
+		t = t.Xs[0] // a reflect.Value operand stands for the value it holds (fmt and redact alike)
+	}
 	if t.K == "safe" || t.K == "unsafe" {
 		t = t.Xs[0]
 	}
@@ -130,6 +152,33 @@ func plainOperands(ts []*lib.Term) bool {
 		}
 	}
 	return true
+}
+
+// plainDeep: at every depth only values that mean the same to fmt and to redact (no wrappers, no redact interfaces, no
+// panicking methods, nothing printed as an address)
+func plainDeep(ts []*lib.Term) bool {
+	ok := true
+	walkTerms(ts, func(t *lib.Term) {
+		switch t.K {
+		case "string", "int", "uint", "bool", "float", "complex", "nil", "slice", "map":
+		case "struct":
+			if len(t.Caps) > 0 {
+				ok = false
+			}
+		case "obj":
+			if len(t.Pan) > 0 || len(t.Scr) > 0 || len(t.FScr) > 0 {
+				ok = false
+			}
+			for _, c := range t.Caps {
+				if c != "ER" && c != "ST" && c != "GS" {
+					ok = false
+				}
+			}
+		default:
+			ok = false
+		}
+	})
+	return ok
 }
 
 // judgeC15: HelperForErrorf per the statement.
@@ -179,6 +228,9 @@ func judgeC15(rep *lib.Report, c *lib.Ctx, ln *printerLine, res *realResult, hoo
 	misuse := 0
 	for _, w := range ws[good:] {
 		if w.arg >= 0 { // MISSING / BADINDEX have their own diagnostics
+			if t := ln.C.Ts[w.arg]; t.K == "invalidrv" || (t.K == "rvalue" && t.Xs[0].K == "nil") {
+				continue // ... and so has the zero reflect.Value under every verb ("<invalid reflect.Value>", as in fmt.Errorf)
+			}
 			misuse++
 		}
 	}
@@ -199,12 +251,14 @@ func judgeC15(rep *lib.Report, c *lib.Ctx, ln *printerLine, res *realResult, hoo
 		sig := "errorf:misuse-not-reported"
 		if f4Class(ws, ln.C.Ts) && got < misuse {
 			sig = "errorf:f4-text" // the text side of F4: a surplus %w that is accepted renders normally
+		} else if onRedactable := misusedOnRedactable(ws[good:], ln.C.Ts); onRedactable > 0 && got == misuse-onRedactable {
+			sig = "errorf:f9" // F9: a pre-redacted operand is inserted as it is whatever the verb, %w included
 		}
 		rep.Violate(sig, fmt.Sprintf("%s: %d misused %%w but %d bad-verb reports in %q", desc, misuse, got, res.Out), kase)
 	}
 	// (3) fmt.Errorf for at most one %w and plain operands
 	// ('+' and '#' on %w: Go >= 1.20 derives plusV/sharpV for %w as for %v, the fork's Go 1.17 base does not)
-	if nW <= 1 && hook == "none" && plainOperands(ln.C.Ts) && !(nW == 1 && (ws[0].sharp || strings.Contains(f, "%+w"))) {
+	if nW <= 1 && hook == "none" && plainOperands(ln.C.Ts) && (currentSlice != "rnd" || plainDeep(ln.C.Ts)) && !(nW == 1 && (ws[0].sharp || strings.Contains(f, "%+w"))) {
 		func() {
 			defer func() { recover() }()
 			e := fmt.Errorf(f, args...)
@@ -341,6 +395,14 @@ func judgeC17(rep *lib.Report, c *lib.Ctx, ln *printerLine, res *realResult, hoo
 				}
 				i = j
 			}
+		}
+	}
+	// "bypassed under Unsafe()", whatever the shape of the case: no invocation for an error that stands under an Unsafe()
+	// declaration (at any depth of the operand, or as the payload of a panic raised there)
+	cm := lib.CtxMap(ln.C.Ts)
+	for _, x := range res.Calls {
+		if x.M == "Hook" && cm[x.ID] == "unsafe" {
+			rep.Violate("hook:under-unsafe", fmt.Sprintf("%s: the hook was invoked for error #%d, which stands under Unsafe() (output %q)", desc, x.ID, res.Out), kase)
 		}
 	}
 	if currentSlice != "hook" && currentSlice != "" {
